@@ -2,7 +2,7 @@
 seeded history x every invalid-request kind)."""
 
 from .. import eworld
-from ..dworld import (DWorld, gen_filter, FEATURE_TYPES, BUILDERS, INVALID_KINDS, observe_dispatcher, rec_classes)
+from ..dworld import (DWorld, gen_filter, FEATURE_TYPES, BUILDERS, INVALID_KINDS, observe_dispatcher, rec_classes, mark_manual)
 from ..instances import gen_instance, n_ops
 from ..util import stream, cjson, Foreign
 from ..core import short_exc
@@ -49,7 +49,7 @@ def generate(seed, tier):
     spec = gen_instance(rng, sparse_ids=0.03, max_jobs=4, max_machines=4, max_ops=4, positive=True if names else None)
     n = n_ops(spec)
     ops = [["dispatch", rng.randrange(64), rng.randrange(64), int(rng.random() < 0.5)] for _ in range(n if rng.random() < 0.7 else rng.randint(0, n))]
-    return {"prop": PROP, "kind": "dispatch", "cfg": {"instance": spec, "filter": names, "filter_style": style, "observers": zoo(rng)},
+    return {"prop": PROP, "kind": "dispatch", "cfg": {"instance": spec, "filter": names, "filter_style": style, "observers": mark_manual(stream(seed, "c09-manual"), zoo(rng), 0.06)},
             "ops": ops, "arg_seed": rng.randrange(1 << 30)}
 
 
